@@ -1,4 +1,5 @@
 import Treepath.Proofs.DocListLemmas
+import Treepath.Proofs.RefoldList
 /- C19 — a list-typed attribute behaves as the underlying list -/
 namespace Treepath.C19
 
@@ -92,5 +93,41 @@ theorem pop_is_list_pop (c : Conv) (h : Heap) (id : Nat) (xs : List Val) (i : In
 example : (keepAllList (keepFn { w := id, u := id } (fun v => match v with | .atom (.int i) => i > 1 | _ => false))
     [.atom (.int 3), .atom (.int 1), .atom (.int 2), .atom (.int 0), .atom (.int 5)]).map
       (fun v => match v with | .atom (.int i) => i | _ => -1) = [3, 2, 5] := by decide
+
+/-! ### the view's operations, on the JSON tree -/
+
+/-- **"the resulting JSON list equals that of the same operation on a plain list of the JSON
+values"**, for `append`: on a document that is a tree, with the view's list sitting at `loc`,
+`view.append(v)` makes the document unfold to the old tree with `to_json_value(v)` appended to
+the JSON list at `loc` — everything else unchanged, the document still such a tree -/
+theorem append_on_the_tree (c : Conv) (h h' : Heap) (id : Nat) (v : Val) (root : Val) (j jv : J) (loc : List Name)
+    (hi : DocInv h root j) (hw : walk (hview h) root loc = some (.ref id))
+    (hv : UnfJ h jv (c.unwrap v)) (hvn : (fpJ h jv (c.unwrap v)).Nodup)
+    (hfresh : ∀ x ∈ fpJ h jv (c.unwrap v), x ∉ fpJ h j root)
+    (hop : lAppend c h id v = some h') :
+    ∃ j', J.updateAt (jAppend jv) j loc = some j' ∧ DocInv h' root j' :=
+  lAppend_refines c h h' id v root j jv loc hi hw hv hvn hfresh hop
+
+/-- `del view[i]` (and the list side of `view.pop(i)`) -/
+theorem delete_on_the_tree (h h' : Heap) (id : Nat) (i : Int) (root : Val) (j : J) (loc : List Name)
+    (hi : DocInv h root j) (hw : walk (hview h) root loc = some (.ref id)) (hop : lDel h id i = some h') :
+    ∃ j', J.updateAt (jDelIdx i) j loc = some j' ∧ DocInv h' root j' :=
+  lDel_refines h h' id i root j loc hi hw hop
+
+/-- **`keep_all` / `remove_all` on the tree**: the JSON list at the view's location keeps exactly
+the items at the positions where the predicate said "keep", in their original order (converters
+that hand the JSON value back unchanged) -/
+theorem keep_all_on_the_tree (c : Conv) (hc : ∀ x, c.unwrap (c.wrap x) = x) (keep : Val → Bool) (h h' : Heap) (id : Nat)
+    (xs : List Val) (root : Val) (j : J) (loc : List Name)
+    (hi : DocInv h root j) (hw : walk (hview h) root loc = some (.ref id)) (ho : h[id]? = some (.list xs))
+    (hop : lKeepAll c keep h id = some h') :
+    ∃ j', J.updateAt (jKeep (xs.map fun x => keep (c.wrap x))) j loc = some j' ∧ DocInv h' root j' :=
+  lKeepAll_refines c hc keep h h' id xs root j loc hi hw ho hop
+
+/-- with a predicate that remembers what it has been asked: still one question per element,
+front to back (the in-place loop = the plain-list comprehension, state included) -/
+theorem keep_all_with_memory {σ : Type} (f : σ → Val → σ × Option Val) (s : σ) (xs : List Val) :
+    keepAllListS f s xs = (filterMapS f s xs).1 :=
+  keepAllListS_eq f s xs
 
 end Treepath.C19
